@@ -2005,7 +2005,7 @@ func c14Tasks(tier string) []mc.Task {
 			}
 		}})
 	}
-	return ts
+	return append(ts, c14AATasks()...)
 }
 
 // c14LongColumnwise: the per-site statistics of a long alignment are, site by site, those of the column alone
@@ -2237,7 +2237,7 @@ func init() {
 			return append(append(c14Tasks(tier), cliStreamTasks("C14")...), c14CLITasks()...)
 		},
 		Replay: func(c *mc.Ctx, payload json.RawMessage) {
-			if cliStreamReplay(c, payload) || c14CLIReplay(c, payload) {
+			if cliStreamReplay(c, payload) || c14CLIReplay(c, payload) || c14AAReplay(c, payload) {
 				return
 			}
 			var cs c14Case
